@@ -316,6 +316,8 @@ fn run(a: &vhcore::Args) -> i32 {
         .collect();
     let mut pool = Pool::new(a.jobs, vhcore::work_dir("C13/pool"));
     pool.recycle_after = 300;
+    // wall-clock watchdog only (never a verdict); generous because the box may be heavily oversubscribed
+    pool.timeout = std::time::Duration::from_secs(3600);
 
     let sc_idx: Vec<usize> = {
         let l = reqs.len();
